@@ -1859,6 +1859,15 @@ class C17(Property):
                        ("m", dm(("o", dm(("i", dl(di(3))), ("j", dl(di(2)))))))), "doc2": None, "env": None},
             {"kind": "load", "type": [F("s", P("string")), F("t", P("string"), O(opt=True))],
              "doc": dm(("s", ds("${C17_A}/x")), ("t", ds("$C17_UNSET"))), "doc2": None, "env": {"C17_A": "valueA"}},
+            # env references at several kinds of position + a properties file: loaded with UseEnv first, then without
+            {"kind": "load", "tag": "env-sequence", "type": [F("Dsn", P("string")), F("Pass", Ptr(P("string")), O(opt=True)), F("Hosts", Sl(P("string"))),
+                                      F("Labels", Mp(P("string")), O(opt=True))],
+             "doc": dm(("Dsn", ds("tcp($C17_B:3306)/db")), ("Pass", ds("${C17_A}")), ("Hosts", dl(ds("$C17_A"), ds("plain"))),
+                       ("Labels", dm(("zone", ds("pre-${C17_A}-post")), ("cost", ds("5$"))))),
+             "doc2": dm(("dsn", ds("tcp($C17_B:3306)/db")), ("PASS", ds("${C17_A}")), ("hosts", dl(ds("$C17_A"), ds("plain"))),
+                        ("LABELS", dm(("zone", ds("pre-${C17_A}-post")), ("cost", ds("5$"))))),
+             "env": {"C17_A": "valueA", "C17_B": "srv.local"},
+             "props": [["k1", "${C17_A}"], ["db.url", "tcp(${C17_A}:3306)/db"], ["plain", "cost 5$"]]},
             {"kind": "load", "type": [F("Name", P("string")), F("name", P("int"))], "doc": dm(("Name", ds("x"))), "doc2": None,
              "env": None},
             {"kind": "load", "type": I, "doc": dm(("a", dfl("1.5"))), "doc2": None, "env": None},
